@@ -733,3 +733,7 @@ META = {
     'technique': 'static analysis: exactly-once consumption along CFG paths of the job-list loop, comparison-predicate enumeration of guards, constant/guard tracking of option wiring, finalisation-order path check',
     'design_ref': 'DESIGN.md section 5, C05',
 }
+
+
+from . import shared as _shared
+_shared.register('C05', 'C05')
